@@ -1438,7 +1438,7 @@ Proof.
   assert (HL : (s_h o < length (regs (pq e)))%nat) by (apply rget_used_lt; exact U).
   pose proof (good_rec _ _ _ G Gr) as GR.
   cbn [fst snd]. unfold mon_step. rewrite V. cbn [o_st ok3 Z.eqb negb]. rewrite Gr.
-  destruct (m_pc r) eqn:PC; try (apply R_viol; exact G); rewrite LV; cbn [negb].
+  rewrite LV; cbn [negb].
   all: split; [apply good_set_sub; [exact G|exact GR]|right].
   all: set (l := rget (regs (pq e)) (s_h o)) in *.
   all: set (l' := mkReg (next_free (pq e)) (r_sub l) (r_awt l) false (r_kicked l)).
